@@ -13,6 +13,10 @@ CHECKS = {
    text="Real XR reconciler (production wiring, both composers) over the simulated API server: for fixed scenario shapes every API-call index of every reconcile x 6 fault outcomes (incl. crash after the write took effect), then fault-free retries to quiescence; invariants checked by a post-write hook on every intermediate store state. Held on the executions produced, not a proof.",
    note="Trusted: " + SIM + "; scripted functions served over real gRPC; single XR; composed kinds without finalizers.",
    technique="runtime monitoring: post-write invariant hook + fault enumeration over API-call indices", ref="3/C01"),
+ "C11": dict(cat="exploration",
+   text="Real xcrd.ForCompositeResource/ForCompositeResourceClaim, XRD Validate/ValidateUpdate and the real XRD admission webhook (over sim) run on thousands of generated XRDs and (old,new) pairs; outputs compared with an independent oracle and golden machinery schemas. Held on the generated inputs.",
+   note="Trusted: golden/machinery_*.json (reviewed dump of the machinery schema); the generator's schema grammar; sim accepts any CRD body on dry-run so webhook denials come only from Crossplane's validation.",
+   technique="runtime monitoring: generated inputs against a reference oracle + golden machinery schema", ref="3/C11"),
 }
 
 READY = [k for k in CHECKS if os.path.isdir(os.path.join(ROOT, "harness", k.lower()))]
